@@ -40,9 +40,9 @@ CASES = [
                                         "TapeSet": '"const"'}, {"FloatRoundKnown": "Never1"},
      ["C08_Total"], "View", None),
     ("DEV_ContainsFallsThrough", "MC_Sub", {"Depth": "1", "Types": '{"int"}', "ContainerSet": '"level1"'},
-     {"KnownFallThrough": "Never0"}, ["C12_OnlySubstitutionError"], "View", None),
+     {"KnownFallThrough": "Never0", "SeedTapes": "AllSeedTapes"}, ["C12_OnlySubstitutionError"], "View", None),
     ("DEV_AnyLeftEmpty", "MC_Sub", {"Depth": "1", "Types": '{"int"}', "ContainerSet": '"level1"'},
-     {"KnownAnyEmpty": "Never0"}, ["C12_ResultUsable"], "View", None),
+     {"KnownAnyEmpty": "Never0", "SeedTapes": "AllSeedTapes"}, ["C12_ResultUsable"], "View", None),
     ("DEV_PropsEqSchemaVsValue", "MC_Eq", {"Depth": "1"}, {"KnownMarkerVsAny": "Never2"},
      ["C15_EqualMeansSameVerdicts"], None, None),
     ("DEV_ReprEmptyListDropsLen", "MC_Repr", {"Depth": "1"}, {"KnownEmptyListLen": "Never1"},
